@@ -377,6 +377,11 @@ pub struct Interp<'a> {
     /// what the interactive prompt shows for the last line run by `line`: Some(text) ("" for null) when the
     /// line's value is specified
     pub last_shown: Option<String>,
+    /// index of the top-level statement of the current line that is running
+    top_index: usize,
+    /// names whose top-level declaration belonged to a line that failed before the declaration completed (and
+    /// that no later line has declared since): by C17 such a declaration never happened
+    pub ghosts: std::collections::HashSet<String>,
     pub quirks: Quirks,
     literal_pool: HashMap<String, Rc<RefCell<String>>>,
     /// statistics: which (U1/U2) reads of unbound declarations happened
@@ -427,6 +432,8 @@ impl<'a> Interp<'a> {
             effects: 0,
             effect_limit: None,
             last_shown: None,
+            top_index: 0,
+            ghosts: std::collections::HashSet::new(),
             quirks: Quirks::default(),
             literal_pool: HashMap::new(),
             max_depth: 0,
@@ -467,8 +474,42 @@ impl<'a> Interp<'a> {
                 },
             };
         }
+        let before = self.res.clone();
         self.res = trial;
-        let end = match self.run_top(ast) {
+        let ran = self.run_top(ast);
+        // C17: a line that fails while running leaves behind the assignments it completed and nothing else —
+        // the declarations of the statement that failed and of those after it never happened (the names keep
+        // their earlier meaning, or none)
+        let declared = |s: &Stmt| -> Option<String> {
+            match s {
+                Stmt::Let(n, _) => Some(n.clone()),
+                Stmt::Expr(Expr::Function { name, .. }) if !name.is_empty() => Some(name.clone()),
+                _ => None,
+            }
+        };
+        let completed = match &ran {
+            Ok(_) => ast.len(),
+            Err(Stop::Err(_)) | Err(Stop::Cut) => {
+                let k = self.top_index.min(ast.len());
+                let mut back = before;
+                if back.program(&ast[..k]).is_ok() {
+                    self.res = back;
+                    for s in &ast[k..] {
+                        if let Some(n) = declared(s) {
+                            self.ghosts.insert(n);
+                        }
+                    }
+                }
+                k
+            }
+            _ => 0,
+        };
+        for s in &ast[..completed] {
+            if let Some(n) = declared(s) {
+                self.ghosts.remove(&n);
+            }
+        }
+        let end = match ran {
             Ok(v) => End::Value(v),
             Err(Stop::Err(e)) => End::Error(e),
             Err(Stop::Unspec(u)) => End::Unspec(u),
@@ -483,7 +524,8 @@ impl<'a> Interp<'a> {
 
     fn run_top(&mut self, ast: &'a [Stmt]) -> Result<Option<String>, Stop> {
         let mut last = V::Null;
-        for s in ast {
+        for (i, s) in ast.iter().enumerate() {
+            self.top_index = i;
             match self.stmt(s)? {
                 Flow::Val(v) => last = v,
                 // stop/volgende/antwoord cannot reach the top level: rejected statically
@@ -500,6 +542,11 @@ impl<'a> Interp<'a> {
                 Ok(Some(render(&v)))
             }
         }
+    }
+
+    /// Does this line mention a name whose declaration failed (see `ghosts`)?
+    pub fn mentions_ghost(&self, ast: &[Stmt]) -> bool {
+        self.ghosts.iter().any(|g| crate::astx::mentions(ast, g))
     }
 
     /// Registers one observable effect (a completed assignment, element store or print).
